@@ -346,7 +346,8 @@ def corrupt(case, rng):
 
 
 def replay_cases(ck, cases, h):
-    results = vlib.run_harness(h, "lifecycle", [c["harness"] for c in cases], shards=min(12, vlib.NCPU))
+    results = vlib.run_harness(h, "lifecycle", [c["harness"] for c in cases], shards=min(12, vlib.NCPU),
+                               env_extra={"GOGC": "400", "GOMAXPROCS": "2"})
     evaluate(ck, cases, results)
 
 
